@@ -19,7 +19,7 @@ from .. import multi
 
 ID = "C18"
 LEVEL = "exploration"
-RULE = ("random base queries over 1-4 variables (depth<=4, full vocabulary), each compared with 3 variants produced by a "
+RULE = ("random base queries over 1-4 variables (depth<=4, full vocabulary; a fifth of them for_all queries with permuted universal and free domains), each compared with 3 variants produced by a "
         "random composition of the listed rewrites plus permuted declaration order, selection order and domain order, and "
         "the several-arguments spelling of a top-level conjunction; caching on. Non-trivial: the base result is neither "
         "empty nor the whole product and at least one variant differs syntactically from the base. distinct by hash.")
@@ -40,12 +40,27 @@ def plan(tier, seed):
 def floors(tier):
     return {"distinct_nontrivial": 300, "variants_compared": 5000, "cls:variant_syntactically_different": 3000,
             "cls:decl_order_permuted": 1000, "cls:sel_order_permuted": 500, "cls:split_top_and": 100,
-            "cls:nvars=3": 300, "cls:nvars=4": 100}
+            "cls:nvars=3": 300, "cls:nvars=4": 100, "cls:for_all_query": 200}
 
 
 def cases(spec, ctx):
+    from . import c10
     for i in range(spec["n"]):
         rng = ctx.rng(spec["sub"], i)
+        if rng.random() < 0.2:
+            fc = c10.gen_case(rng)
+            fc["caching"] = True
+            variants = []
+            for _ in range(3):
+                perm = []
+                for k in fc["kinds"]:
+                    pr = list(range(len(fc["world"][k])))
+                    rng.shuffle(pr)
+                    perm.append(pr)
+                variants.append({"cond": C.rewrite(fc["cond"], rng), "perm": perm, "extra_first": rng.random() < 0.5,
+                                 "extra": C.rewrite(fc["extra"], rng) if fc["extra"] is not None else None})
+            yield {"forall": fc, "variants": variants}
+            continue
         nv_hi = 4 if rng.random() < 0.3 else 3
         case = multi.gen_case(rng, nvars=(1, nv_hi), depth=(1, 4), allow_expr_sel=False)
         nv = len(case["kinds"])
@@ -74,7 +89,40 @@ def _rows(case, world, v, caching=True):
     return [frozenset(zip(v["sel"], r)) for r in got]
 
 
+def check_forall_case(case, ctx):
+    from . import c10
+    fc = case["forall"]
+    world = D.build_world(fc["world"])
+    ctx.cls("cls:for_all_query")
+    try:
+        base = c10.run(fc, world, True)[0]
+    except Exception as e:
+        ctx.fail("EXC", f"base: {type(e).__name__}: {e}")
+        return
+    for vi, v in enumerate(case["variants"]):
+        ctx.count("variants_compared")
+        vc = dict(fc)
+        vc.update({"cond": v["cond"], "extra": v["extra"], "extra_first": v["extra_first"]})
+        if v["cond"] != fc["cond"]:
+            ctx.cls("cls:variant_syntactically_different")
+        try:
+            alt = c10.run(vc, world, True, perm=v["perm"])[0]
+        except Exception as e:
+            ctx.fail("EXC", f"variant {vi}: {type(e).__name__}: {e}", variant=vi)
+            return
+        if set(alt) != set(base):
+            ctx.fail("FORALL_SET:" + ("missing" if set(base) - set(alt) else "") + ("+extra" if set(alt) - set(base) else ""),
+                     {"variant": vi, "variant_condition": v["cond"], "domain_permutation": v["perm"],
+                      "only_base": sorted(set(base) - set(alt))[:6], "only_variant": sorted(set(alt) - set(base))[:6]}, variant=vi)
+            break
+    if len(world[fc["kinds"][0]]) >= 2 and base:
+        ctx.nontrivial()
+    ctx.sample({"for_all": {k: v for k, v in fc.items() if k != "world"}, "variant0": case["variants"][0], "rows": len(base)})
+
+
 def check_case(case, ctx):
+    if "forall" in case:
+        return check_forall_case(case, ctx)
     world = D.build_world(case["world"])
     nv = len(case["kinds"])
     ctx.cls(f"cls:nvars={nv}")
@@ -119,6 +167,24 @@ def check_case(case, ctx):
 def classify(f, ctx):
     """A variant that disagrees with the base: decide with the oracle which side is wrong, then K05 attribution on it."""
     case = f["case"]
+    if "forall" in case:
+        if f["kind"] not in ("FORALL_SET:missing", "FORALL_SET:+extra") or "variant" not in f:
+            return None
+        from . import c10
+        fc = case["forall"]
+        world = D.build_world(fc["world"])
+        v = case["variants"][f["variant"]]
+        vc = dict(fc)
+        vc.update({"cond": v["cond"], "extra": v["extra"], "extra_first": v["extra_first"]})
+        for side, perm in ((fc, None), (vc, v["perm"])):
+            ff = dict(f)
+            ff["kind"] = "SET:missing"
+            r = KF.attribute(ff, lambda caching, side=side, perm=perm: c10.run(side, world, caching, perm=perm)[0],
+                             c10.expected(side, world), mentioned_not_selected=False,
+                             compare=lambda got, e: H.diff_kind(got, e, ordered=False, multiset=False))
+            if r == "K05":
+                return "K05"
+        return None
     if f["kind"] not in ("SET:missing", "SET:+extra") or "variant" not in f:
         return None
     world = D.build_world(case["world"])
